@@ -18,7 +18,9 @@ def build_and_test(tag):
     rc, out = sh(f'cmake -G Ninja -B _b -DCMAKE_BUILD_TYPE=Release -DENABLE_WERROR=OFF > /dev/null && ninja -C _b 2>&1 | tail -3', cwd=wt)
     if rc != 0: return None, out
     rc, out = sh('ctest --test-dir _b -j16 --timeout 900 2>&1 | grep -E "tests passed|\\(Failed\\)|Failed  "', cwd=wt)
-    return out.strip(), out
+    import re
+    norm = sorted(set(re.findall(r'- (\S+) \(Failed\)', out))) + re.findall(r'\d+% tests passed, \d+ tests failed out of \d+', out)
+    return ' | '.join(norm), out
 def demo(src, extra=''):
     rc, out = sh(f'gcc -O1 -g {extra} -I libarchive -I _b -I libarchive/test {src} _b/libarchive/libarchive.a {LIBS} -o _b/demo 2>&1 | tail -5', cwd=wt)
     if not os.path.exists(os.path.join(wt, '_b/demo')): return None, out
